@@ -63,6 +63,7 @@ Attr(env, cmdDoc) ==
             [] env.holder = "origStr"     -> << <<"originatingCommand", Str("envstr", "env")>>, <<"command", cmdDoc>> >>)
       \o << <<"planSummary", Str("plan", "plan")>>,
             <<"keysExamined", Num("env")>>,
+            <<"envkey", Num("env")>>,
             <<"appName", Str("envstr", "env")>>,
             <<"locks", Obj(<< <<"Global", Obj(<< <<"acquireCount", Obj(<< <<"r", Num("env")>> >>)>> >>)>> >>)>>,
             <<"flowControl", Arr(<< Arr(<< Obj(<< <<"filter", Obj(<< <<"uf1", Str("envstr", "env")>> >>)>> >>) >>) >>)>>,
